@@ -117,6 +117,150 @@ class Probe:
         return md.snapshot()
 
 
+class HookObj:
+    """Client object: every attribute read is an invocation point."""
+
+    def __init__(self, world, hid, attrs):
+        self.__dict__['_w'] = world
+        self.__dict__['_h'] = hid
+        self.__dict__['_a'] = attrs
+
+    def __getattr__(self, name):
+        if name.startswith('__'):
+            raise AttributeError(name)
+        self._w.tick(('getattr', self._h, name))
+        try:
+            return self._a[name]
+        except KeyError:
+            raise AttributeError(name)
+
+    def __repr__(self):
+        return '<HookObj %s>' % self._h
+
+
+class HookSeq:
+    """Sequence: __getitem__ and __len__ are invocation points."""
+
+    def __init__(self, world, hid, items):
+        self.w, self.h, self.items = world, hid, items
+
+    def __getitem__(self, i):
+        self.w.tick(('getitem', self.h, i))
+        return self.items[i]
+
+    def __len__(self):
+        self.w.tick(('len', self.h))
+        return len(self.items)
+
+    def __repr__(self):
+        return '<HookSeq %s>' % self.h
+
+
+class HookIter:
+    """Iterable: __iter__ / __next__ are invocation points."""
+
+    def __init__(self, world, hid, items):
+        self.w, self.h, self.items = world, hid, items
+
+    def __iter__(self):
+        self.w.tick(('iter', self.h))
+        for x in self.items:
+            self.w.tick(('next', self.h))
+            yield x
+
+
+class HookMap(dict):
+    """Mapping: key reads are invocation points."""
+
+    def __init__(self, world, hid, items):
+        dict.__init__(self, items)
+        self.w, self.h = world, hid
+
+    def __getitem__(self, k):
+        self.w.tick(('mapget', self.h, k))
+        return dict.__getitem__(self, k)
+
+    def get(self, k, default=None):
+        self.w.tick(('mapget', self.h, k))
+        return dict.get(self, k, default)
+
+
+class HookVal:
+    """Value whose __bool__, __str__, comparison and fmt= methods are
+    invocation points."""
+
+    def __init__(self, world, hid, truth, text, key=0):
+        self.w, self.h, self.truth, self.text, self.key = \
+            world, hid, truth, text, key
+
+    def __bool__(self):
+        self.w.tick(('bool', self.h))
+        return self.truth
+
+    def __str__(self):
+        self.w.tick(('str', self.h))
+        return self.text
+
+    def __lt__(self, other):
+        self.w.tick(('lt', self.h))
+        return self.key < getattr(other, 'key', other)
+
+    def __gt__(self, other):
+        self.w.tick(('gt', self.h))
+        return self.key > getattr(other, 'key', other)
+
+    def __eq__(self, other):
+        return self is other or self.key == getattr(other, 'key', other)
+
+    def __hash__(self):
+        return hash(self.h)
+
+    def shout(self):
+        self.w.tick(('fmt', self.h))
+        return self.text.upper()
+
+    def absolute_url(self):
+        self.w.tick(('absolute_url', self.h))
+        return 'http://h/' + str(self.h)
+
+
+class TreeNode:
+    """Node for dtml-tree: tpValues / tpId / tpURL / kids are invocation
+    points."""
+
+    def __init__(self, world, nid, children):
+        self.w, self.nid, self.children = world, nid, children
+
+    def tpValues(self):
+        self.w.tick(('tpValues', self.nid))
+        return self.children
+
+    def kids(self):
+        self.w.tick(('kids', self.nid))
+        return self.children
+
+    def tpId(self):
+        self.w.tick(('tpId', self.nid))
+        return self.nid
+
+    def tpURL(self):
+        return self.nid
+
+    def title(self):
+        self.w.tick(('title', self.nid))
+        return 'T' + str(self.nid)
+
+
+class Response:
+    def __init__(self, world):
+        self.w = world
+        self.cookies = {}
+
+    def setCookie(self, name, value, **kw):
+        self.w.tick(('setCookie', name))
+        self.cookies[name] = value
+
+
 class ModelTemplate:
     """What the reference interpreter sees for a {"t":"tmpl"} value."""
     isDocTemp = 1
@@ -154,6 +298,29 @@ def build(spec, world, mode, keep=None):
         return iter([build(x, world, mode, keep) for x in spec['items']])
     if t == 'probe':
         return Probe(world, spec['id'])
+    if t == 'hobj':
+        return HookObj(world, spec['id'],
+                       {k: build(v, world, mode, keep)
+                        for k, v in spec['attrs'].items()})
+    if t == 'hseq':
+        return HookSeq(world, spec['id'],
+                       [build(x, world, mode, keep) for x in spec['items']])
+    if t == 'hiter':
+        return HookIter(world, spec['id'],
+                        [build(x, world, mode, keep) for x in spec['items']])
+    if t == 'hmap':
+        return HookMap(world, spec['id'],
+                       {k: build(v, world, mode, keep)
+                        for k, v in spec['items'].items()})
+    if t == 'hval':
+        return HookVal(world, spec['id'], spec.get('truth', True),
+                       spec.get('text', 'hv'), spec.get('key', 0))
+    if t == 'tree':
+        return TreeNode(world, spec['id'],
+                        [build(x, world, mode, keep)
+                         for x in spec.get('children', [])])
+    if t == 'response':
+        return Response(world)
     if t == 'exc':
         return EXC[spec['n']]
     if t == 'tmpl':
